@@ -62,12 +62,12 @@ func c17r1(c *RC) {
 	n := errSites(c, readerFuncs(pr), func(fn *Func, call *ast.CallExpr, cn string) bool {
 		return isReaderRead(pr, fn.Pkg, call) || cn == "sliceio.ReadFull"
 	}, ErrFlowOpts{SentinelOK: []string{"sliceio.EOF"}}, except)
-	c.Floor("upstream Read call sites", n, 25)
+	c.Floor("upstream Read call sites", n, 15)
 	// every implementation of sliceio.Reader is covered (listed for audit)
 	if iface := pr.lookupIface("sliceio", "Reader"); iface != nil {
 		impls := pr.implementers(iface, "Read")
 		c.Note("%d types implement sliceio.Reader", len(impls))
-		c.Floor("implementations of sliceio.Reader", len(impls), 20)
+		c.Floor("implementations of sliceio.Reader", len(impls), 12)
 	}
 }
 
@@ -361,7 +361,7 @@ func c17r5(c *RC) {
 	pr := c.P
 	before := len(c.Obls)
 	eofSites(c, readerFuncs(pr))
-	c.Floor("end-of-stream production sites", len(c.Obls)-before, 12)
+	c.Floor("end-of-stream production sites", len(c.Obls)-before, 8)
 }
 
 // c17r6: the count of an upstream Read must be used on every non-error path.
@@ -499,5 +499,5 @@ func c17r6(c *RC) {
 			}
 		}
 	}
-	c.Floor("upstream Read sites binding a count", n, 20)
+	c.Floor("upstream Read sites binding a count", n, 12)
 }
